@@ -58,6 +58,22 @@ func diffParseRun(res *Result, d *Driver, src []byte, withRun bool) (implLine st
 			Expected: "the verdict, diagnostics, printed output, blocks, binding and error the language definition (Lean model, proved against the spec) gives"})
 		return si
 	}
+	// the language definition itself (the big-step evaluator of Spec/Sem.lean, which the VM is proved to
+	// compute) must say the same as the implementation: same outcome on success, same error text on failure
+	if strings.HasPrefix(si, "accepted") {
+		ss := ask(d, "SEM "+hx(src))
+		res.Eval(1)
+		okSem := ss == si
+		if strings.HasPrefix(ss, "err ") {
+			okSem = strings.TrimPrefix(ss, "err ") == field(si, "err")
+		}
+		if !okSem {
+			res.Fail(Failure{Kind: "oracle", Op: "SEM " + hx(src), Input: string(src), Impl: si, Model: ss,
+				Expected: "what the big-step evaluator of the language definition (Spec/Sem.lean) computes on the parsed tree"})
+			return si
+		}
+		res.Count("sem."+strings.SplitN(ss, " ", 2)[0], 1)
+	}
 	op := fmt.Sprintf("PARSE %s %s 1", hxs("input"), hx(src))
 	impl := implParse("input", src, true)
 	model := ask(d, op)
